@@ -4,7 +4,8 @@ from . import _buffer
 ID = 'C08'
 MODULE = _buffer.MODULE
 LEAN_SUBDIRS = _buffer.LEAN_SUBDIRS
-THEOREMS = ['AiutiVerif.Buffer.C08_serial_nonempty', 'AiutiVerif.Buffer.C08_serial_nonempty_prefix',
+THEOREMS = ['AiutiVerif.Buffer.C08_quiet_period', 'AiutiVerif.Buffer.C08_quiet_period_prefix',
+            'AiutiVerif.Buffer.C08_serial_nonempty', 'AiutiVerif.Buffer.C08_serial_nonempty_prefix',
             'AiutiVerif.Buffer.C08_never_empty', 'AiutiVerif.Buffer.runProgram_K']
 ASSUMPTIONS = list(_buffer.ASSUMPTIONS_COMMON)
 RULE = ('arrival-time sequences of immediately available arguments (plain calls, sync iterables) over a grid containing 0, T-16, T, T+16 and multiples, timeouts from {64,256,1024,4096} ticks, function durations shorter and longer than the timeout, function failures, non-cancelling waits; every program runs on the real BufferAsyncCalls under a virtual clock and on the Lean machine, '
